@@ -29,7 +29,7 @@ open Cx.Impl.Sha3 Cx.Extracted.GlueSponge Cx.Extracted.GlueSponge.Sha3 Cx.Proofs
 
 /-- the struct definitions the state mapping of the translation was written for are token-identical in the source
     (otherwise the generated constants are failure stubs of another type and this does not typecheck) -/
-theorem structs_checked : Engine_struct_src = () ∧ Context_struct_src = () := ⟨rfl, rfl⟩
+theorem structs_checked : Engine_struct_src = () ∧ Context_struct_src = () ∧ Imports_src = () := ⟨rfl, rfl, rfl⟩
 
 /-- `fn rate(&self)`: the checked `DIGESTLEN * 2` and `B - …` fail exactly when the model's guard does -/
 theorem Engine.rate_src_eq_model (dl ds : Nat) (e : Engine) : Engine.rate_src dl ds e = rate dl :=
@@ -106,9 +106,322 @@ theorem Context.finalize_src_eq_model (dl : Nat) (c : Context) : Context.finaliz
 theorem Context.reset_src_eq_model (dl : Nat) (c : Context) : Context.reset_src dl c = some (Context.reset c) :=
   Proofs.GlueSponge.ctx_reset_src_eq_model dl c
 
+/-- `impl $C { pub fn new() }` (the marker types `Sha3_224` … `Sha3_512`) -/
+theorem Algorithm.new_src_eq_model (dl : Nat) : Algorithm.new_src dl = some Context.new :=
+  Proofs.GlueSponge.alg_new_src_eq_model dl
+
 /-- test (not a theorem about all inputs): the translated source computes SHA3-256("abc") -/
 example : ((Context.new_src 32).bind fun c => (Context.update_src 32 c [0x61, 0x62, 0x63]).bind (Context.finalize_src 32)).map
     (fun d => d.take 4) = some [0x3a, 0x98, 0x5d, 0xa7] := by decide +kernel
 
 end Sha3
+
+/-! ## BLAKE2b: `EngineB` (src/hashing/blake2/mod.rs), `Context<BITS>` / `ContextDyn` / `context_finalize!` (src/hashing/blake2b.rs)
+
+  The hand model (Impl/Blake2.lean, generic over `P : Params W`, here `P = b`, `W = UInt64`, profile `.wrapping` = the
+  code as it is) does not check the slice bounds that hold by the buffer invariant
+  `Inv b c := c.buf.length = BLOCK_BYTES ∧ c.buflen ≤ BLOCK_BYTES` (Proofs/Blake2.lean); the translation does.  So the ties of
+  the functions that touch the buffer are stated for all states satisfying `Inv` (`DynInv` = `Inv` + `outlen ≤ MAX_OUTLEN`
+  for `ContextDyn`), and the invariant is proved to be established by `new_keyed` and preserved by every operation
+  (`…_inv` below; Props/C02/Blake2.lean proves it for every reachable state of an operation history).  `Context<BITS>`
+  theorems about `finalize*` carry the type-level fact `(BITS + 7) / 8 ≤ MAX_OUTLEN` asserted by `new`/`new_keyed`. -/
+namespace Blake2b
+open Cx.Impl.Blake2 Cx.Extracted.GlueSponge Cx.Extracted.GlueSponge.Blake2b Cx.Proofs.GlueSponge
+open Cx.Proofs.Blake2 (Inv)
+open Cx.Proofs.GlueSponge.B (DynInv)
+
+/-- the struct definitions (and the `use … EngineB as Engine`) the state mapping was written for are unchanged -/
+theorem structs_checked : Engine_struct_src = () ∧ Context_struct_src = () ∧ ContextDyn_struct_src = () ∧ Engine_alias_src = () ∧
+    Imports_src = () := ⟨rfl, rfl, rfl, rfl, rfl⟩
+
+/-- the associated constants of `EngineB` -/
+theorem Engine.consts_src_eq_model : Engine.BLOCK_BYTES_src = b.bb ∧ Engine.MAX_OUTLEN_src = b.maxOut ∧
+    Engine.MAX_KEYLEN_src = b.maxKey ∧ Engine.BLOCK_BYTES_NATIVE_src = b.bb := B.consts_src_eq_model
+
+/-- `EngineB::new`: the two asserts, `h = IV; h[0] ^= 0x01010000 ^ (keylen << 8) ^ outlen`, `t = [0, 0]` -/
+theorem Engine.new_src_eq_model (outlen keylen : Nat) : Engine.new_src outlen keylen = Engine.new b outlen keylen :=
+  B.engine_new_src_eq_model outlen keylen
+
+theorem Engine.reset_src_eq_model (e : Engine UInt64) (outlen keylen : Nat) :
+    Engine.reset_src e outlen keylen = some (Engine.reset b e outlen keylen) := B.engine_reset_src_eq_model e outlen keylen
+
+/-- `increment_counter`: `wrapping_add` on `t[0]`, the carry `if t[0] < inc` into `t[1]` -/
+theorem Engine.increment_counter_src_eq_model (e : Engine UInt64) (inc : Nat) :
+    Engine.increment_counter_src e inc = Engine.increment_counter .wrapping e inc := B.engine_increment_counter_src_eq_model e inc
+
+/-! ### `Context<BITS>` -/
+
+theorem Context.new_keyed_src_eq_model (BITS : Nat) (key : Bytes) : Context.new_keyed_src BITS key = Context.new_keyed b BITS key :=
+  B.ctx_new_keyed_src_eq_model BITS key
+
+theorem Context.new_src_eq_model (BITS : Nat) : Context.new_src BITS = Context.new b BITS := B.ctx_new_src_eq_model BITS
+
+/-- the marker type `Blake2b<BITS>`: `new()`, `new_keyed(key)` -/
+theorem Algorithm.new_src_eq_model (BITS : Nat) : Algorithm.new_src BITS = Context.new b BITS := B.alg_new_src_eq_model BITS
+theorem Algorithm.new_keyed_src_eq_model (BITS : Nat) (key : Bytes) : Algorithm.new_keyed_src BITS key = Context.new_keyed b BITS key :=
+  B.alg_new_keyed_src_eq_model BITS key
+
+/-- `update_mut`: the empty-input return, `fill`, the STRICT `>` (a full block stays buffered), the first block through the
+    buffer, the `while input.len() > BLOCK_BYTES` loop, the final copy and `buflen +=` — every input length -/
+theorem Context.update_mut_src_eq_model (BITS : Nat) (c : Ctx UInt64) (input : Bytes) (hi : Inv b c) :
+    Context.update_mut_src BITS c input = Context.update_mut b .wrapping c input := B.ctx_update_mut_src_eq_model BITS c input hi
+
+theorem Context.update_src_eq_model (BITS : Nat) (c : Ctx UInt64) (input : Bytes) (hi : Inv b c) :
+    Context.update_src BITS c input = Context.update b .wrapping c input := B.ctx_update_src_eq_model BITS c input hi
+
+/-- `internal_final`: counter += buflen, wipe of `buf[buflen..]`, last-block compression, all 8 words of `h` written to `buf[0..64]` -/
+theorem Context.internal_final_src_eq_model (BITS : Nat) (c : Ctx UInt64) (hi : Inv b c) :
+    Context.internal_final_src BITS c = Ctx.internal_final b .wrapping c := B.ctx_internal_final_src_eq_model BITS c hi
+
+theorem Context.reset_src_eq_model (BITS : Nat) (c : Ctx UInt64) (hB : BITS + 7 < 2 ^ 64) :
+    Context.reset_src BITS c = some (Context.reset b BITS c) := B.ctx_reset_src_eq_model BITS c hB
+
+/-- `reset_with_key`: the assert, engine reset with the key length, wipe of the WHOLE buffer, key block or empty buffer -/
+theorem Context.reset_with_key_src_eq_model (BITS : Nat) (c : Ctx UInt64) (key : Bytes) (hi : Inv b c) (hB : BITS + 7 < 2 ^ 64) :
+    Context.reset_with_key_src BITS c key = Context.reset_with_key b BITS c key := B.ctx_reset_with_key_src_eq_model BITS c key hi hB
+
+/-- `finalize_at(out)`: only `out.len()` matters (the whole of `out` is overwritten) -/
+theorem Context.finalize_at_src_eq_model (BITS : Nat) (c : Ctx UInt64) (out : Bytes) (hi : Inv b c) (hB : (BITS + 7) / 8 ≤ b.maxOut) :
+    Context.finalize_at_src BITS c out = Context.finalize_at b .wrapping BITS c out.length := B.ctx_finalize_at_src_eq_model BITS c out hi hB
+
+theorem Context.finalize_reset_at_src_eq_model (BITS : Nat) (c : Ctx UInt64) (out : Bytes) (hi : Inv b c)
+    (hB : (BITS + 7) / 8 ≤ b.maxOut) :
+    Context.finalize_reset_at_src BITS c out = Context.finalize_reset_at b .wrapping BITS c out.length :=
+  B.ctx_finalize_reset_at_src_eq_model BITS c out hi hB
+
+theorem Context.finalize_reset_with_key_at_src_eq_model (BITS : Nat) (c : Ctx UInt64) (key out : Bytes) (hi : Inv b c)
+    (hB : (BITS + 7) / 8 ≤ b.maxOut) :
+    Context.finalize_reset_with_key_at_src BITS c key out = Context.finalize_reset_with_key_at b .wrapping BITS c key out.length :=
+  B.ctx_finalize_reset_with_key_at_src_eq_model BITS c key out hi hB
+
+/-- `context_finalize!($size)`: `out = [0; $size / 8]` -/
+theorem Context.finalize_src_eq_model (BITS : Nat) (c : Ctx UInt64) (hi : Inv b c) (hB : (BITS + 7) / 8 ≤ b.maxOut) :
+    Context.finalize_src BITS c = Context.finalize b .wrapping BITS c := B.ctx_finalize_src_eq_model BITS c hi hB
+
+theorem Context.finalize_reset_src_eq_model (BITS : Nat) (c : Ctx UInt64) (hi : Inv b c) (hB : (BITS + 7) / 8 ≤ b.maxOut) :
+    Context.finalize_reset_src BITS c = Context.finalize_reset b .wrapping BITS c := B.ctx_finalize_reset_src_eq_model BITS c hi hB
+
+theorem Context.finalize_reset_with_key_src_eq_model (BITS : Nat) (c : Ctx UInt64) (key : Bytes) (hi : Inv b c)
+    (hB : (BITS + 7) / 8 ≤ b.maxOut) :
+    Context.finalize_reset_with_key_src BITS c key = Context.finalize_reset_with_key b .wrapping BITS c key :=
+  B.ctx_finalize_reset_with_key_src_eq_model BITS c key hi hB
+
+/-! ### the invariant: established by `new_keyed`, preserved by every operation -/
+
+theorem Context.new_keyed_inv (n : Nat) (key : Bytes) (c : Ctx UInt64) (h : Ctx.new_keyed b n key = some c) : Inv b c :=
+  B.ctx_new_keyed_inv n key c h
+theorem Context.update_mut_inv (c c' : Ctx UInt64) (input : Bytes) (hi : Inv b c) (h : Ctx.update_mut b .wrapping c input = some c') :
+    Inv b c' := B.ctx_update_mut_inv c c' input hi h
+theorem Context.internal_final_inv (c c' : Ctx UInt64) (hi : Inv b c) (h : Ctx.internal_final b .wrapping c = some c') : Inv b c' :=
+  B.internal_final_shape c c' hi h
+theorem Context.reset_inv (c : Ctx UInt64) (n : Nat) (hi : Inv b c) : Inv b (Ctx.reset b c n) := B.ctx_reset_inv c n hi
+theorem Context.reset_with_key_inv (c c' : Ctx UInt64) (n : Nat) (key : Bytes) (hi : Inv b c)
+    (h : Ctx.reset_with_key b c n key = some c') : Inv b c' := B.ctx_reset_with_key_inv c c' n key hi h
+
+/-- the hypotheses are satisfiable by a non-trivial state (5 pending bytes) -/
+example : Inv b ({ eng := { h := b.iv, t0 := 128, t1 := 0 }, buf := [1, 2, 3, 4, 5] ++ zeros 123, buflen := 5 } : Ctx UInt64) :=
+  ⟨by simp [zeros]; rfl, by show 5 ≤ b.bb; decide⟩
+
+/-! ### `ContextDyn` -/
+
+theorem ContextDyn.new_keyed_src_eq_model (n : Nat) (key : Bytes) : ContextDyn.new_keyed_src n key = ContextDyn.new_keyed b n key :=
+  B.dyn_new_keyed_src_eq_model n key
+
+theorem ContextDyn.new_src_eq_model (n : Nat) : ContextDyn.new_src n = ContextDyn.new b n := B.dyn_new_src_eq_model n
+
+theorem ContextDyn.update_mut_src_eq_model (d : ContextDyn UInt64) (input : Bytes) (hi : DynInv d) :
+    ContextDyn.update_mut_src d input = ContextDyn.update_mut b .wrapping d input := B.dyn_update_mut_src_eq_model d input hi
+
+theorem ContextDyn.update_src_eq_model (d : ContextDyn UInt64) (input : Bytes) (hi : DynInv d) :
+    ContextDyn.update_src d input = ContextDyn.update b .wrapping d input := B.dyn_update_src_eq_model d input hi
+
+/-- `internal_final` (the model has one `Ctx.internal_final` for both context types) -/
+theorem ContextDyn.internal_final_src_eq_model (d : ContextDyn UInt64) (hi : DynInv d) :
+    ContextDyn.internal_final_src d = (Ctx.internal_final b .wrapping d.ctx).bind fun x => some { d with ctx := x } :=
+  B.dyn_internal_final_src_eq_model d hi
+
+theorem ContextDyn.reset_src_eq_model (d : ContextDyn UInt64) : ContextDyn.reset_src d = some (ContextDyn.reset b d) :=
+  B.dyn_reset_src_eq_model d
+
+theorem ContextDyn.reset_with_key_src_eq_model (d : ContextDyn UInt64) (key : Bytes) (hi : DynInv d) :
+    ContextDyn.reset_with_key_src d key = ContextDyn.reset_with_key b d key := B.dyn_reset_with_key_src_eq_model d key hi
+
+theorem ContextDyn.finalize_at_src_eq_model (d : ContextDyn UInt64) (out : Bytes) (hi : DynInv d) :
+    ContextDyn.finalize_at_src d out = ContextDyn.finalize_at b .wrapping d out.length := B.dyn_finalize_at_src_eq_model d out hi
+
+theorem ContextDyn.finalize_reset_at_src_eq_model (d : ContextDyn UInt64) (out : Bytes) (hi : DynInv d) :
+    ContextDyn.finalize_reset_at_src d out = ContextDyn.finalize_reset_at b .wrapping d out.length :=
+  B.dyn_finalize_reset_at_src_eq_model d out hi
+
+theorem ContextDyn.finalize_reset_with_key_at_src_eq_model (d : ContextDyn UInt64) (key out : Bytes) (hi : DynInv d) :
+    ContextDyn.finalize_reset_with_key_at_src d key out = ContextDyn.finalize_reset_with_key_at b .wrapping d key out.length :=
+  B.dyn_finalize_reset_with_key_at_src_eq_model d key out hi
+
+theorem ContextDyn.output_bits_src_eq_model (d : ContextDyn UInt64) (hi : DynInv d) :
+    ContextDyn.output_bits_src d = some (ContextDyn.output_bits d) := B.dyn_output_bits_src_eq_model d hi
+
+theorem ContextDyn.new_keyed_inv (n : Nat) (key : Bytes) (d : ContextDyn UInt64) (h : ContextDyn.new_keyed b n key = some d) : DynInv d :=
+  B.dyn_new_keyed_inv n key d h
+theorem ContextDyn.update_mut_inv (d d' : ContextDyn UInt64) (input : Bytes) (hi : DynInv d)
+    (h : ContextDyn.update_mut b .wrapping d input = some d') : DynInv d' := B.dyn_update_mut_inv d d' input hi h
+theorem ContextDyn.reset_inv (d : ContextDyn UInt64) (hi : DynInv d) : DynInv (ContextDyn.reset b d) := B.dyn_reset_inv d hi
+theorem ContextDyn.reset_with_key_inv (d d' : ContextDyn UInt64) (key : Bytes) (hi : DynInv d)
+    (h : ContextDyn.reset_with_key b d key = some d') : DynInv d' := B.dyn_reset_with_key_inv d d' key hi h
+
+end Blake2b
+
+/-! ## BLAKE2s: `EngineS` (src/hashing/blake2/mod.rs), `Context<BITS>` / `ContextDyn` / `context_finalize!` (src/hashing/blake2s.rs)
+
+  The hand model (Impl/Blake2.lean, generic over `P : Params W`, here `P = s`, `W = UInt32`, profile `.wrapping` = the
+  code as it is) does not check the slice bounds that hold by the buffer invariant
+  `Inv s c := c.buf.length = BLOCK_BYTES ∧ c.buflen ≤ BLOCK_BYTES` (Proofs/Blake2.lean); the translation does.  So the ties of
+  the functions that touch the buffer are stated for all states satisfying `Inv` (`DynInv` = `Inv` + `outlen ≤ MAX_OUTLEN`
+  for `ContextDyn`), and the invariant is proved to be established by `new_keyed` and preserved by every operation
+  (`…_inv` below; Props/C02/Blake2.lean proves it for every reachable state of an operation history).  `Context<BITS>`
+  theorems about `finalize*` carry the type-level fact `(BITS + 7) / 8 ≤ MAX_OUTLEN` asserted by `new`/`new_keyed`. -/
+namespace Blake2s
+open Cx.Impl.Blake2 Cx.Extracted.GlueSponge Cx.Extracted.GlueSponge.Blake2s Cx.Proofs.GlueSponge
+open Cx.Proofs.Blake2 (Inv)
+open Cx.Proofs.GlueSponge.S (DynInv)
+
+/-- the struct definitions (and the `use … EngineS as Engine`) the state mapping was written for are unchanged -/
+theorem structs_checked : Engine_struct_src = () ∧ Context_struct_src = () ∧ ContextDyn_struct_src = () ∧ Engine_alias_src = () ∧
+    Imports_src = () := ⟨rfl, rfl, rfl, rfl, rfl⟩
+
+/-- the associated constants of `EngineS` -/
+theorem Engine.consts_src_eq_model : Engine.BLOCK_BYTES_src = s.bb ∧ Engine.MAX_OUTLEN_src = s.maxOut ∧
+    Engine.MAX_KEYLEN_src = s.maxKey ∧ Engine.BLOCK_BYTES_NATIVE_src = s.bb := S.consts_src_eq_model
+
+/-- `EngineS::new`: the two asserts, `h = IV; h[0] ^= 0x01010000 ^ (keylen << 8) ^ outlen`, `t = [0, 0]` -/
+theorem Engine.new_src_eq_model (outlen keylen : Nat) : Engine.new_src outlen keylen = Engine.new s outlen keylen :=
+  S.engine_new_src_eq_model outlen keylen
+
+theorem Engine.reset_src_eq_model (e : Engine UInt32) (outlen keylen : Nat) :
+    Engine.reset_src e outlen keylen = some (Engine.reset s e outlen keylen) := S.engine_reset_src_eq_model e outlen keylen
+
+/-- `increment_counter`: `wrapping_add` on `t[0]`, the carry `if t[0] < inc` into `t[1]` -/
+theorem Engine.increment_counter_src_eq_model (e : Engine UInt32) (inc : Nat) :
+    Engine.increment_counter_src e inc = Engine.increment_counter .wrapping e inc := S.engine_increment_counter_src_eq_model e inc
+
+/-! ### `Context<BITS>` -/
+
+theorem Context.new_keyed_src_eq_model (BITS : Nat) (key : Bytes) : Context.new_keyed_src BITS key = Context.new_keyed s BITS key :=
+  S.ctx_new_keyed_src_eq_model BITS key
+
+theorem Context.new_src_eq_model (BITS : Nat) : Context.new_src BITS = Context.new s BITS := S.ctx_new_src_eq_model BITS
+
+/-- the marker type `Blake2s<BITS>`: `new()`, `new_keyed(key)` -/
+theorem Algorithm.new_src_eq_model (BITS : Nat) : Algorithm.new_src BITS = Context.new s BITS := S.alg_new_src_eq_model BITS
+theorem Algorithm.new_keyed_src_eq_model (BITS : Nat) (key : Bytes) : Algorithm.new_keyed_src BITS key = Context.new_keyed s BITS key :=
+  S.alg_new_keyed_src_eq_model BITS key
+
+/-- `update_mut`: the empty-input return, `fill`, the STRICT `>` (a full block stays buffered), the first block through the
+    buffer, the `while input.len() > BLOCK_BYTES` loop, the final copy and `buflen +=` — every input length -/
+theorem Context.update_mut_src_eq_model (BITS : Nat) (c : Ctx UInt32) (input : Bytes) (hi : Inv s c) :
+    Context.update_mut_src BITS c input = Context.update_mut s .wrapping c input := S.ctx_update_mut_src_eq_model BITS c input hi
+
+theorem Context.update_src_eq_model (BITS : Nat) (c : Ctx UInt32) (input : Bytes) (hi : Inv s c) :
+    Context.update_src BITS c input = Context.update s .wrapping c input := S.ctx_update_src_eq_model BITS c input hi
+
+/-- `internal_final`: counter += buflen, wipe of `buf[buflen..]`, last-block compression, all 8 words of `h` written to `buf[0..32]` -/
+theorem Context.internal_final_src_eq_model (BITS : Nat) (c : Ctx UInt32) (hi : Inv s c) :
+    Context.internal_final_src BITS c = Ctx.internal_final s .wrapping c := S.ctx_internal_final_src_eq_model BITS c hi
+
+theorem Context.reset_src_eq_model (BITS : Nat) (c : Ctx UInt32) (hB : BITS + 7 < 2 ^ 64) :
+    Context.reset_src BITS c = some (Context.reset s BITS c) := S.ctx_reset_src_eq_model BITS c hB
+
+/-- `reset_with_key`: the assert, engine reset with the key length, wipe of the WHOLE buffer, key block or empty buffer -/
+theorem Context.reset_with_key_src_eq_model (BITS : Nat) (c : Ctx UInt32) (key : Bytes) (hi : Inv s c) (hB : BITS + 7 < 2 ^ 64) :
+    Context.reset_with_key_src BITS c key = Context.reset_with_key s BITS c key := S.ctx_reset_with_key_src_eq_model BITS c key hi hB
+
+/-- `finalize_at(out)`: only `out.len()` matters (the whole of `out` is overwritten) -/
+theorem Context.finalize_at_src_eq_model (BITS : Nat) (c : Ctx UInt32) (out : Bytes) (hi : Inv s c) (hB : (BITS + 7) / 8 ≤ s.maxOut) :
+    Context.finalize_at_src BITS c out = Context.finalize_at s .wrapping BITS c out.length := S.ctx_finalize_at_src_eq_model BITS c out hi hB
+
+theorem Context.finalize_reset_at_src_eq_model (BITS : Nat) (c : Ctx UInt32) (out : Bytes) (hi : Inv s c)
+    (hB : (BITS + 7) / 8 ≤ s.maxOut) :
+    Context.finalize_reset_at_src BITS c out = Context.finalize_reset_at s .wrapping BITS c out.length :=
+  S.ctx_finalize_reset_at_src_eq_model BITS c out hi hB
+
+theorem Context.finalize_reset_with_key_at_src_eq_model (BITS : Nat) (c : Ctx UInt32) (key out : Bytes) (hi : Inv s c)
+    (hB : (BITS + 7) / 8 ≤ s.maxOut) :
+    Context.finalize_reset_with_key_at_src BITS c key out = Context.finalize_reset_with_key_at s .wrapping BITS c key out.length :=
+  S.ctx_finalize_reset_with_key_at_src_eq_model BITS c key out hi hB
+
+/-- `context_finalize!($size)`: `out = [0; $size / 8]` -/
+theorem Context.finalize_src_eq_model (BITS : Nat) (c : Ctx UInt32) (hi : Inv s c) (hB : (BITS + 7) / 8 ≤ s.maxOut) :
+    Context.finalize_src BITS c = Context.finalize s .wrapping BITS c := S.ctx_finalize_src_eq_model BITS c hi hB
+
+theorem Context.finalize_reset_src_eq_model (BITS : Nat) (c : Ctx UInt32) (hi : Inv s c) (hB : (BITS + 7) / 8 ≤ s.maxOut) :
+    Context.finalize_reset_src BITS c = Context.finalize_reset s .wrapping BITS c := S.ctx_finalize_reset_src_eq_model BITS c hi hB
+
+theorem Context.finalize_reset_with_key_src_eq_model (BITS : Nat) (c : Ctx UInt32) (key : Bytes) (hi : Inv s c)
+    (hB : (BITS + 7) / 8 ≤ s.maxOut) :
+    Context.finalize_reset_with_key_src BITS c key = Context.finalize_reset_with_key s .wrapping BITS c key :=
+  S.ctx_finalize_reset_with_key_src_eq_model BITS c key hi hB
+
+/-! ### the invariant: established by `new_keyed`, preserved by every operation -/
+
+theorem Context.new_keyed_inv (n : Nat) (key : Bytes) (c : Ctx UInt32) (h : Ctx.new_keyed s n key = some c) : Inv s c :=
+  S.ctx_new_keyed_inv n key c h
+theorem Context.update_mut_inv (c c' : Ctx UInt32) (input : Bytes) (hi : Inv s c) (h : Ctx.update_mut s .wrapping c input = some c') :
+    Inv s c' := S.ctx_update_mut_inv c c' input hi h
+theorem Context.internal_final_inv (c c' : Ctx UInt32) (hi : Inv s c) (h : Ctx.internal_final s .wrapping c = some c') : Inv s c' :=
+  S.internal_final_shape c c' hi h
+theorem Context.reset_inv (c : Ctx UInt32) (n : Nat) (hi : Inv s c) : Inv s (Ctx.reset s c n) := S.ctx_reset_inv c n hi
+theorem Context.reset_with_key_inv (c c' : Ctx UInt32) (n : Nat) (key : Bytes) (hi : Inv s c)
+    (h : Ctx.reset_with_key s c n key = some c') : Inv s c' := S.ctx_reset_with_key_inv c c' n key hi h
+
+/-- the hypotheses are satisfiable by a non-trivial state (5 pending bytes) -/
+example : Inv s ({ eng := { h := s.iv, t0 := 64, t1 := 0 }, buf := [1, 2, 3, 4, 5] ++ zeros 59, buflen := 5 } : Ctx UInt32) :=
+  ⟨by simp [zeros]; rfl, by show 5 ≤ s.bb; decide⟩
+
+/-! ### `ContextDyn` -/
+
+theorem ContextDyn.new_keyed_src_eq_model (n : Nat) (key : Bytes) : ContextDyn.new_keyed_src n key = ContextDyn.new_keyed s n key :=
+  S.dyn_new_keyed_src_eq_model n key
+
+theorem ContextDyn.new_src_eq_model (n : Nat) : ContextDyn.new_src n = ContextDyn.new s n := S.dyn_new_src_eq_model n
+
+theorem ContextDyn.update_mut_src_eq_model (d : ContextDyn UInt32) (input : Bytes) (hi : DynInv d) :
+    ContextDyn.update_mut_src d input = ContextDyn.update_mut s .wrapping d input := S.dyn_update_mut_src_eq_model d input hi
+
+theorem ContextDyn.update_src_eq_model (d : ContextDyn UInt32) (input : Bytes) (hi : DynInv d) :
+    ContextDyn.update_src d input = ContextDyn.update s .wrapping d input := S.dyn_update_src_eq_model d input hi
+
+/-- `internal_final` (the model has one `Ctx.internal_final` for both context types) -/
+theorem ContextDyn.internal_final_src_eq_model (d : ContextDyn UInt32) (hi : DynInv d) :
+    ContextDyn.internal_final_src d = (Ctx.internal_final s .wrapping d.ctx).bind fun x => some { d with ctx := x } :=
+  S.dyn_internal_final_src_eq_model d hi
+
+theorem ContextDyn.reset_src_eq_model (d : ContextDyn UInt32) : ContextDyn.reset_src d = some (ContextDyn.reset s d) :=
+  S.dyn_reset_src_eq_model d
+
+theorem ContextDyn.reset_with_key_src_eq_model (d : ContextDyn UInt32) (key : Bytes) (hi : DynInv d) :
+    ContextDyn.reset_with_key_src d key = ContextDyn.reset_with_key s d key := S.dyn_reset_with_key_src_eq_model d key hi
+
+theorem ContextDyn.finalize_at_src_eq_model (d : ContextDyn UInt32) (out : Bytes) (hi : DynInv d) :
+    ContextDyn.finalize_at_src d out = ContextDyn.finalize_at s .wrapping d out.length := S.dyn_finalize_at_src_eq_model d out hi
+
+theorem ContextDyn.finalize_reset_at_src_eq_model (d : ContextDyn UInt32) (out : Bytes) (hi : DynInv d) :
+    ContextDyn.finalize_reset_at_src d out = ContextDyn.finalize_reset_at s .wrapping d out.length :=
+  S.dyn_finalize_reset_at_src_eq_model d out hi
+
+theorem ContextDyn.finalize_reset_with_key_at_src_eq_model (d : ContextDyn UInt32) (key out : Bytes) (hi : DynInv d) :
+    ContextDyn.finalize_reset_with_key_at_src d key out = ContextDyn.finalize_reset_with_key_at s .wrapping d key out.length :=
+  S.dyn_finalize_reset_with_key_at_src_eq_model d key out hi
+
+theorem ContextDyn.output_bits_src_eq_model (d : ContextDyn UInt32) (hi : DynInv d) :
+    ContextDyn.output_bits_src d = some (ContextDyn.output_bits d) := S.dyn_output_bits_src_eq_model d hi
+
+theorem ContextDyn.new_keyed_inv (n : Nat) (key : Bytes) (d : ContextDyn UInt32) (h : ContextDyn.new_keyed s n key = some d) : DynInv d :=
+  S.dyn_new_keyed_inv n key d h
+theorem ContextDyn.update_mut_inv (d d' : ContextDyn UInt32) (input : Bytes) (hi : DynInv d)
+    (h : ContextDyn.update_mut s .wrapping d input = some d') : DynInv d' := S.dyn_update_mut_inv d d' input hi h
+theorem ContextDyn.reset_inv (d : ContextDyn UInt32) (hi : DynInv d) : DynInv (ContextDyn.reset s d) := S.dyn_reset_inv d hi
+theorem ContextDyn.reset_with_key_inv (d d' : ContextDyn UInt32) (key : Bytes) (hi : DynInv d)
+    (h : ContextDyn.reset_with_key s d key = some d') : DynInv d' := S.dyn_reset_with_key_inv d d' key hi h
+
+end Blake2s
+
 end Cx.Props.C02.GlueTieSponge
